@@ -46,9 +46,10 @@ fn parse_reply(bytes: &[u8]) -> String {
 
 fn gen_rest(r: &mut Rng) -> Vec<u8> {
     // what may follow an object inside a file: a delimiter / white space / end, then anything
-    let starts: &[&[u8]] = &[b"", b" ", b"\n", b"]", b">>", b"/N", b"(s)", b"<41>", b"[", b"\nendobj\n", b" % c\n7", b"\r\n1 0 obj"];
+    let starts: &[&[u8]] = &[b"", b" ", b"\n", b"]", b">>", b"/N", b"(s)", b"<41>", b"[", b"\nendobj\n", b" % c\n/x", b"\r\nendobj"];
     let mut v = r.pick(starts).to_vec();
-    if !v.is_empty() && r.chance(1, 3) { v.extend(gen_bytes(r, 8)); }
+    // random continuation; no `R`: the writer never puts `<digits> R` after an object unless that object IS a reference
+    if !v.is_empty() && r.chance(1, 3) { v.extend(gen_bytes(r, 8).into_iter().filter(|b| *b != b'R')); }
     v
 }
 
